@@ -1,7 +1,7 @@
 (* Lemmas for C07: the reload of a stored cell (Model/Reload.v) on top of the encode/decode lemmas of C24. *)
 From Coq Require Import ZArith List Bool Lia String.
 Import ListNotations.
-Require Import Grist.Lib.PyFloat Grist.Model.Values Grist.Model.Reload Grist.Proofs.Values_enc_proofs.
+Require Import Grist.Lib.PyFloat Grist.Model.Values Grist.Model.Reload Grist.Proofs.Values_enc_proofs Grist.Proofs.Values_proofs.
 Open Scope Z_scope.
 
 (* what the two marshal legs are asked to carry: marshalable data, or one blob *)
@@ -40,9 +40,9 @@ Variable orc : oracles.
 
 Lemma no_stored : forall fuel before after,
   equal_encoding orc fuel before after = true ->
-  flush_cell orc fuel (recompute_cell before after) = None.
+  flush_cell orc fuel (recompute_cell orc before after) = None.
 Proof.
-  intros fuel b a H. unfold recompute_cell. destruct (strict_equal a b); [reflexivity|].
+  intros fuel b a H. unfold recompute_cell. destruct (strict_equal orc a b); [reflexivity|].
   cbn [flush_cell]. rewrite H. reflexivity.
 Qed.
 
@@ -79,13 +79,30 @@ Qed.
 
 (* ---- what decode_object makes of a tagged list ---------------------------------------------------- *)
 
-Definition nonscalar (v : value) : bool :=
-  match v with PBool _ | PInt _ _ | PFloat _ _ | PStr _ _ => false | _ => true end.
+(* not a number, bool or str; a non-empty list only when there was stack left to decode its items *)
+Definition okd (n : nat) (v : value) : bool :=
+  match v with
+  | PBool _ | PInt _ _ | PFloat _ _ | PStr _ _ => false
+  | PList _ (_ :: _) => match n with O => false | S _ => true end
+  | _ => true
+  end.
 
-Lemma nonscalar_raised : forall e, nonscalar (raised e) = true.
-Proof. reflexivity. Qed.
+Lemma ts_to_dt_okd : forall n ts z w, ts_to_dt orc ts z = Ok w -> okd n w = true.
+Proof.
+  intros n ts z w. unfold ts_to_dt. destruct (td_of_seconds orc ts) as [u|]; cbn [bind]; [|discriminate].
+  destruct (negb (in_dt_range u)); [discriminate|].
+  destruct (negb (in_dt_range (u + o_ts_offset orc z u))); [discriminate|].
+  intros H; injection H as <-. reflexivity.
+Qed.
 
-Lemma decode_tagged_nonscalar : forall n e, is_tagged e = true -> nonscalar (decode_f orc n e) = true.
+Lemma ts_to_date_okd : forall n ts w, ts_to_date orc ts = Ok w -> okd n w = true.
+Proof.
+  intros n ts w. unfold ts_to_date. destruct (td_of_seconds orc ts) as [u|]; cbn [bind]; [|discriminate].
+  match goal with |- context [if ?b then _ else _] => destruct b end; [|discriminate].
+  intros H; injection H as <-. reflexivity.
+Qed.
+
+Lemma decode_tagged_okd : forall n e, is_tagged e = true -> okd n (decode_f orc n e) = true.
 Proof.
   intros n e He.
   destruct e as [| | | | | |k items| | | | | | | | | | | | | | | |]; try discriminate He.
@@ -101,11 +118,15 @@ Proof.
        end.
   all: try reflexivity.
   all: repeat match goal with
+       | |- context [ts_to_dt orc ?a ?b] =>
+           let E := fresh "E" in destruct (ts_to_dt orc a b) eqn:E; [exact (ts_to_dt_okd _ _ _ _ E)|reflexivity]
+       | |- context [ts_to_date orc ?a] =>
+           let E := fresh "E" in destruct (ts_to_date orc a) eqn:E; [exact (ts_to_date_okd _ _ _ E)|reflexivity]
        | |- context [match ?x with _ => _ end] =>
            match type of x with
            | value => destruct x
            | list value => destruct x
-           | result value => destruct x
+           | list (value * value) => destruct x
            | option bool => destruct x
            | bool => destruct x
            | (value * list value)%type => destruct x
@@ -114,16 +135,298 @@ Proof.
        end.
 Qed.
 
-Lemma encode_list_tuple : forall n k l, encode_f orc n (PTuple l) = encode_f orc n (PList k l).
-Proof. intros n k l. destruct n; reflexivity. Qed.
+Lemma encode_list_tuple : forall n k x l, encode_f orc (S n) (PTuple (x :: l)) = encode_f orc (S n) (PList k (x :: l)).
+Proof. reflexivity. Qed.
 
-Lemma set_nonscalar : forall T n d, nonscalar d = true ->
+Lemma encode_nil_tuple : forall n k, encode_f orc n (PTuple []) = encode_f orc n (PList k []).
+Proof. intros n k. destruct n; reflexivity. Qed.
+
+Lemma set_okd : forall T n d, okd n d = true ->
   exists w, col_set orc T d = Ok w /\ encode_f orc n w = encode_f orc n d.
 Proof.
   intros T n d Hd.
   destruct T; destruct d; try discriminate Hd; cbn [col_set numeric_set choicelist_set ref_cleanup reflist_cleanup reflist_pre bool_set py_eq_small];
     try (eexists; split; reflexivity).
-  all: try (eexists; split; [reflexivity|apply encode_list_tuple]).
+  destruct l as [|x l]; [eexists; split; [reflexivity|apply encode_nil_tuple]|].
+  destruct n; [discriminate Hd|]. eexists; split; [reflexivity|apply encode_list_tuple].
 Qed.
 
 End Facts.
+
+(* ---- the round trip ----------------------------------------------------------------------------- *)
+
+Section RoundTrip.
+Variable orc : oracles.
+Variable marshal : value -> list Z.
+Variable unmarshal : list Z -> value.
+
+(* marshal.loads (marshal.dumps x) = x for the two things the reload of an encoded cell e hands to marshal: the
+   database cell (e itself, or the blob holding e) and, for a blob, e (monitored by the harness on every value) *)
+Definition marshal_rt (e : value) : Prop :=
+  unmarshal (marshal (to_db marshal e)) = to_db marshal e /\ unmarshal (marshal e) = e.
+
+(* the library facts of C24 (monitored there and here) *)
+Hypothesis H_utc : zone_ok orc (Str "UTC") = true.
+Hypothesis H_float_whole : forall d, MIN_DAY <= d <= MAX_DAY ->
+  o_td_seconds orc (o_total_seconds orc (d * US_PER_DAY)) = UsOk (d * US_PER_DAY).
+Hypothesis H_float : forall u, in_dt_range u = true ->
+  exists u', o_td_seconds orc (o_total_seconds orc u) = UsOk u' /\ Z.abs (u' - u) <= 16 /\
+             o_total_seconds orc u' = o_total_seconds orc u.
+Hypothesis H_tz : forall z u, in_dt_range u = true ->
+  Z.abs (o_ts_offset orc z u) < US_PER_DAY /\
+  o_dt_offset orc z (Some (o_ts_offset orc z u)) (u + o_ts_offset orc z u) = o_ts_offset orc z u.
+
+(* the .error a reloaded cell ends up with *)
+Definition reload_err (n : nat) (v : value) : option str :=
+  match encode_f orc n v with
+  | PList _ _ => decoded_err orc n (encode_f orc n v)
+  | _ => None
+  end.
+
+Lemma reload_unfold : forall T n v err, marshalableb (encode_f orc n v) = true -> marshal_rt (encode_f orc n v) ->
+  reload orc marshal unmarshal T n (v, err) =
+  bind (col_set orc T (decode_f orc n (encode_f orc n v))) (fun w => Ok (w, reload_err n v)).
+Proof.
+  intros T n v err Hm [Hm1 Hm2]. unfold reload, reload_err. cbn [fst]. rewrite Hm1. clear Hm1.
+  pose proof (encode_not_tuple orc n v) as Hnt.
+  assert (Hprim : forall e, (forall k l, e <> PList k l) -> (forall l, e <> PTuple l) -> (forall s b, e <> PBytes s b) ->
+                  (let '(d, err0) := from_db orc unmarshal n e in
+                   bind (col_set orc T d) (fun w => Ok (w, err0))) =
+                  bind (col_set orc T (decode_f orc n e)) (fun w => Ok (w, None))).
+  { intros e H1 H2 H3. rewrite (decode_prim orc n e H1 H2).
+    destruct e; try reflexivity. exfalso; eapply H3; reflexivity. }
+  destruct (encode_f orc n v) as [| | | | | |k l|l| | | | | | | | | | | | | | |] eqn:He;
+    try (exfalso; eapply Hnt; reflexivity); try discriminate Hm;
+    try (cbn [to_db]; apply Hprim; intros; discriminate).
+  (* list: through a blob *)
+  cbn [to_db from_db]. rewrite Hm2. reflexivity.
+Qed.
+
+Theorem value_roundtrip : forall T n v err,
+  marshal_rt (encode_f orc n v) -> vforall node_ok v = true -> vforall (node_dt orc) v = true -> storable orc T v ->
+  exists w err', reload orc marshal unmarshal T n (v, err) = Ok (w, err') /\
+                 encode_f orc n w = encode_f orc n v.
+Proof.
+  intros T n v err Hmr Hok Hdt Hst.
+  rewrite reload_unfold by (try exact Hmr; apply encode_marshalable; exact Hok).
+  pose proof (encode_decode_encode orc H_utc H_float_whole H_float H_tz n v Hdt) as EDE.
+  set (d := decode_f orc n (encode_f orc n v)) in *.
+  assert (Hset : exists w, col_set orc T d = Ok w /\ encode_f orc n w = encode_f orc n d).
+  { assert (Hid : col_set orc T d = Ok d -> exists w, col_set orc T d = Ok w /\ encode_f orc n w = encode_f orc n d).
+    { intros H. exists d. split; [exact H|reflexivity]. }
+    destruct T; try (apply Hid; reflexivity); cbn [storable] in Hst; destruct Hst as [Hp Hfix];
+      (destruct (encode_plain_cases orc n v Hp) as [[He Hprim]|Htag];
+       [ assert (Hd : d = v) by (unfold d; rewrite He; apply decode_prim; intros; intro; subst v; discriminate Hprim);
+         rewrite Hd; exists v; split; [exact Hfix|reflexivity]
+       | apply set_okd; apply decode_tagged_okd; exact Htag ]). }
+  destruct Hset as [w [Hw Henc]]. rewrite Hw. cbn [bind].
+  exists w, (reload_err n v). split; [reflexivity|]. rewrite Henc. exact EDE.
+Qed.
+
+(* ---- values that come back as the same object ------------------------------------------------------ *)
+
+(* built from None, bool, short exact int, exact float, exact str and plain lists of such, nested no deeper than the
+   stack allows: the values whose encoding says everything about them *)
+Fixpoint exact_f (n : nat) (v : value) : bool :=
+  match v with
+  | PNone | PBool _ | PFloat false _ | PStr false _ => true
+  | PInt false z => is_int_short z
+  | PList LPlain l =>
+      match l with
+      | [] => true
+      | _ => match n with O => false | S k => forallb (exact_f k) l end
+      end
+  | _ => false
+  end.
+
+(* a cell of a column of type T: ChoiceList keeps its lists as tuples *)
+Definition exact_cell (T : ctype) (n : nat) (v : value) : bool :=
+  match T, v with
+  | TChoiceList, PTuple l => exact_f n (PList LPlain l)
+  | _, _ => exact_f n v
+  end.
+
+Lemma map_id_on : forall {A} (f : A -> A) l, (forall x, In x l -> f x = x) -> map f l = l.
+Proof.
+  intros A f l H. induction l as [|x l IH]; [reflexivity|]. cbn [map].
+  rewrite (H x (or_introl eq_refl)), IH; [reflexivity|]. intros y Hy. apply H. right. exact Hy.
+Qed.
+
+Lemma decode_encode_exact : forall n v, exact_f n v = true -> decode_f orc n (encode_f orc n v) = v.
+Proof.
+  induction n as [|k IH]; intros v Hv.
+  - destruct v; try discriminate Hv; try reflexivity.
+    + destruct sub; [discriminate Hv|]. cbn [exact_f] in Hv. cbn [encode_f]. rewrite Hv. reflexivity.
+    + destruct sub; [discriminate Hv|]. reflexivity.
+    + destruct sub; [discriminate Hv|]. reflexivity.
+    + destruct k; [|discriminate Hv]. destruct l; [reflexivity|discriminate Hv].
+  - destruct v; try discriminate Hv; try reflexivity.
+    + destruct sub; [discriminate Hv|]. cbn [exact_f] in Hv. cbn [encode_f]. rewrite Hv. reflexivity.
+    + destruct sub; [discriminate Hv|]. reflexivity.
+    + destruct sub; [discriminate Hv|]. reflexivity.
+    + destruct k0; [|discriminate Hv]. destruct l as [|x l]; [reflexivity|].
+      cbn [exact_f] in Hv. change (encode_f orc (S k) (PList LPlain (x :: l))) with (tag "L" (map (encode_f orc k) (x :: l))).
+      cbn [map]. rewrite decode_L. rewrite <- map_cons, map_map. f_equal. apply map_id_on.
+      intros y Hy. apply IH. rewrite forallb_forall in Hv. apply Hv. exact Hy.
+Qed.
+
+Lemma exact_node_ok : forall n v, exact_f n v = true -> vforall node_ok v = true.
+Proof.
+  induction n as [|k IH]; intros v Hv; destruct v; try discriminate Hv; try reflexivity.
+  - destruct k; [|discriminate Hv]. destruct l; [reflexivity|discriminate Hv].
+  - destruct k0; [|discriminate Hv]. destruct l as [|x l]; [reflexivity|]. cbn [exact_f] in Hv.
+    cbn [vforall]. change (node_ok (PList LPlain (x :: l))) with true. cbn [andb].
+    rewrite forallb_forall in *. intros y Hy. apply IH. apply Hv. exact Hy.
+Qed.
+
+Lemma exact_not_err : forall n v, exact_f n v = true -> is_error v = false.
+Proof. intros n v H. destruct v; try reflexivity. destruct n; discriminate H. Qed.
+
+(* The reloaded cell is the very same object description: same type, same content, no error attribute. *)
+Theorem reload_exact : forall T n v,
+  marshal_rt (encode_f orc n (match T, v with TChoiceList, PTuple l => PList LPlain l | _, _ => v end)) ->
+  exact_cell T n v = true -> col_set orc T v = Ok v ->
+  reload orc marshal unmarshal T n (v, None) = Ok (v, None).
+Proof.
+  intros T n v Hmr Hex Hfix.
+  assert (Hgen : forall u, exact_f n u = true -> marshal_rt (encode_f orc n u) ->
+                 reload orc marshal unmarshal T n (u, None) =
+                 bind (col_set orc T u) (fun w => Ok (w, None))).
+  { intros u Hu Hm. rewrite reload_unfold by (try exact Hm; apply encode_marshalable; eapply exact_node_ok; exact Hu).
+    unfold reload_err, decoded_err. rewrite (decode_encode_exact n u Hu).
+    assert (Hne : is_error u = false) by (eapply exact_not_err; exact Hu).
+    destruct (encode_f orc n u); try reflexivity. destruct u; try reflexivity; discriminate Hne. }
+  destruct T; try (rewrite (Hgen v Hex) by (destruct v; exact Hmr); rewrite Hfix; reflexivity).
+  (* ChoiceList *)
+  destruct v; try (rewrite (Hgen _ Hex Hmr); rewrite Hfix; reflexivity).
+  cbn [exact_cell] in Hex.
+  assert (Henc : encode_f orc n (PTuple l) = encode_f orc n (PList LPlain l)).
+  { destruct l as [|x l]; [apply encode_nil_tuple|]. destruct n; [discriminate Hex|]. apply encode_list_tuple. }
+  unfold reload. cbn [fst]. rewrite Henc.
+  pose proof (Hgen (PList LPlain l) Hex Hmr) as H. unfold reload in H. cbn [fst] in H.
+  rewrite H. reflexivity.
+Qed.
+
+End RoundTrip.
+
+(* ---- storable covers what set stores ------------------------------------------------------------ *)
+
+Section Coverage.
+Variable orc : oracles.
+
+(* Whatever a column class stores for a plain object (decode_object and the type conversions produce only such)
+   is storable: plain again, and stored unchanged when set a second time. *)
+Lemma set_result_storable : forall T d w, plain_top d = true -> col_set orc T d = Ok w -> storable orc T w.
+Proof.
+  intros T d w Hp Hs.
+  destruct T; cbn [storable]; try exact I; cbn [col_set] in Hs.
+  - (* Bool *)
+    injection Hs as <-. unfold bool_set.
+    destruct (py_eq_small d 1) eqn:E1; [split; reflexivity|].
+    destruct (py_eq_small d 0) eqn:E0; [split; reflexivity|].
+    split; [exact Hp|]. cbn [col_set]. unfold bool_set. rewrite E1, E0. reflexivity.
+  - (* Numeric *)
+    destruct d; try (injection Hs as <-; split; [exact Hp|reflexivity]).
+    destruct sub; [discriminate Hp|]. cbn [numeric_set] in Hs. destruct (f_of_Z z); [|discriminate Hs].
+    injection Hs as <-. split; reflexivity.
+  - destruct d; try (injection Hs as <-; split; [exact Hp|reflexivity]).
+    destruct sub; [discriminate Hp|]. cbn [numeric_set] in Hs. destruct (f_of_Z z); [|discriminate Hs].
+    injection Hs as <-. split; reflexivity.
+  - destruct d; try (injection Hs as <-; split; [exact Hp|reflexivity]).
+    destruct sub; [discriminate Hp|]. cbn [numeric_set] in Hs. destruct (f_of_Z z); [|discriminate Hs].
+    injection Hs as <-. split; reflexivity.
+  - (* ChoiceList *)
+    injection Hs as <-.
+    destruct d; try (split; [exact Hp|reflexivity]); cbn [choicelist_set].
+    + destruct (starts_with (Str "[") s) eqn:Es; [|split; [exact Hp|cbn [col_set choicelist_set]; rewrite Es; reflexivity]].
+      destruct (o_json_loads orc s) as [j|] eqn:Ej;
+        [|split; [exact Hp|cbn [col_set choicelist_set]; rewrite Es, Ej; reflexivity]].
+      destruct (py_iter orc j) eqn:Ei; [split; reflexivity|].
+      split; [exact Hp|cbn [col_set choicelist_set]; rewrite Es, Ej, Ei; reflexivity].
+  - destruct d; try (injection Hs as <-; split; [exact Hp|reflexivity]).
+    destruct sub; [discriminate Hp|]. cbn [numeric_set] in Hs. destruct (f_of_Z z); [|discriminate Hs].
+    injection Hs as <-. split; reflexivity.
+  - destruct d; try (injection Hs as <-; split; [exact Hp|reflexivity]).
+    destruct sub; [discriminate Hp|]. cbn [numeric_set] in Hs. destruct (f_of_Z z); [|discriminate Hs].
+    injection Hs as <-. split; reflexivity.
+  - (* Ref *)
+    injection Hs as <-.
+    destruct d; try (split; [exact Hp|reflexivity]). destruct sub; [discriminate Hp|]. cbn [ref_cleanup].
+    destruct (f_trunc f) as [n| |] eqn:Et; try (split; [reflexivity|cbn [col_set ref_cleanup]; rewrite Et; reflexivity]).
+    destruct (f_eq_Z f n && (0 <? n) && is_int_short n) eqn:Ec; [split; reflexivity|].
+    split; [reflexivity|cbn [col_set ref_cleanup]; rewrite Et, Ec; reflexivity].
+  - (* RefList *)
+    injection Hs as <-. unfold reflist_cleanup.
+    destruct d; try (split; [exact Hp|reflexivity]). destruct sub; [discriminate Hp|]. cbn [reflist_pre].
+    destruct (starts_with (Str "[") s) eqn:Es.
+    + destruct (o_json_loads orc s) as [j|] eqn:Ej;
+        [|split; [reflexivity|cbn [col_set]; unfold reflist_cleanup; cbn [reflist_pre]; rewrite Es, Ej; reflexivity]].
+      destruct j; try (split; [reflexivity|cbn [col_set]; unfold reflist_cleanup; cbn [reflist_pre]; rewrite Es, Ej; reflexivity]).
+      destruct (forallb is_pos_int l) eqn:El; [split; reflexivity|].
+      split; [reflexivity|cbn [col_set]; unfold reflist_cleanup; cbn [reflist_pre]; rewrite Es, Ej, El; reflexivity].
+    + destruct (reclist_from_repr orc s) as [rl|] eqn:Er.
+      * apply (Grist.Proofs.Values_proofs.reclist_from_repr_ints orc) in Er as [l [-> _]]. split; reflexivity.
+      * split; [reflexivity|cbn [col_set]; unfold reflist_cleanup; cbn [reflist_pre]; rewrite Es, Er; reflexivity].
+  - (* Attachments *)
+    injection Hs as <-. unfold reflist_cleanup.
+    destruct d; try (split; [exact Hp|reflexivity]). destruct sub; [discriminate Hp|]. cbn [reflist_pre].
+    destruct (starts_with (Str "[") s) eqn:Es.
+    + destruct (o_json_loads orc s) as [j|] eqn:Ej;
+        [|split; [reflexivity|cbn [col_set]; unfold reflist_cleanup; cbn [reflist_pre]; rewrite Es, Ej; reflexivity]].
+      destruct j; try (split; [reflexivity|cbn [col_set]; unfold reflist_cleanup; cbn [reflist_pre]; rewrite Es, Ej; reflexivity]).
+      destruct (forallb is_pos_int l) eqn:El; [split; reflexivity|].
+      split; [reflexivity|cbn [col_set]; unfold reflist_cleanup; cbn [reflist_pre]; rewrite Es, Ej, El; reflexivity].
+    + destruct (reclist_from_repr orc s) as [rl|] eqn:Er.
+      * apply (Grist.Proofs.Values_proofs.reclist_from_repr_ints orc) in Er as [l [-> _]]. split; reflexivity.
+      * split; [reflexivity|cbn [col_set]; unfold reflist_cleanup; cbn [reflist_pre]; rewrite Es, Er; reflexivity].
+Qed.
+
+End Coverage.
+
+(* ---- a reloaded cell against the recomputed value -------------------------------------------------- *)
+
+Section Quiet.
+Variable orc : oracles.
+
+Lemma encode_bool_inv : forall n a b, encode_f orc n a = PBool b -> a = PBool b.
+Proof.
+  intros n a b.
+  destruct a; destruct n; cbn [encode_f]; try discriminate; try (intros H; exact H).
+  all: try (destruct (is_int_short z); [discriminate|]; destruct (str_of_Z z); discriminate).
+  all: try (destruct (o_utf8_decode orc b0); discriminate).
+  all: try (destruct l; discriminate).
+  all: try (destruct (forallb (fun kv : value * value => is_str (fst kv)) l); [destruct l|]; discriminate).
+  all: try (destruct (dt_to_ts orc wall tz None); [destruct tz|]; discriminate).
+  all: try (destruct uinput; discriminate).
+Qed.
+
+Lemma f_eq_refl_or_nan : forall x, f_eq x x || (f_is_nan x && f_is_nan x) = true.
+Proof.
+  intros x. destruct x as [|neg|neg|m e]; cbn [f_eq f_is_nan andb orb]; try reflexivity.
+  - destruct neg; reflexivity.
+  - rewrite Z.leb_refl, Z.sub_diag. cbn [Z.pow]. rewrite Z.mul_1_r, Z.eqb_refl. reflexivity.
+Qed.
+
+(* Two objects with the same encoding are "equal by encoding" as objtypes.equal_encoding computes it, provided the
+   encoding compares equal to itself under Python's == (it does unless a NaN sits inside a container). *)
+Theorem same_encoding_equal : forall n a b,
+  encode_f orc n a = encode_f orc n b ->
+  py_eq orc (encode_f orc n a) (encode_f orc n a) = true ->
+  equal_encoding orc n a b = true.
+Proof.
+  intros n a b H Hr.
+  destruct (is_boolv a) eqn:Ba.
+  { destruct a; try discriminate Ba. assert (Hb : b = PBool b0).
+    { apply (encode_bool_inv n). rewrite <- H. destruct n; reflexivity. }
+    subst b. cbn. destruct b0; reflexivity. }
+  destruct (is_boolv b) eqn:Bb.
+  { destruct b; try discriminate Bb. assert (Ha : a = PBool b).
+    { apply (encode_bool_inv n). rewrite H. destruct n; reflexivity. }
+    subst a. discriminate Ba. }
+  destruct a; try discriminate Ba; destruct b; try discriminate Bb;
+    cbn [equal_encoding is_boolv orb]; try exact Hr; try (rewrite <- H; exact Hr).
+  assert (Hf : f = f0) by (destruct n; cbn [encode_f] in H; injection H as H; exact H).
+  subst f0. apply f_eq_refl_or_nan.
+Qed.
+
+End Quiet.
